@@ -206,6 +206,18 @@ def check_api(ctx, results, specs):
             ctx.branch(f"api:{it['fmt']}:{'rows' if exp else 'empty'}")
             if got is None:
                 got = []
+            if it["fmt"] == "sqlite" and got == exp:
+                # same rows: the storage class of every exported value is the class of the stored serial type
+                # (columns a row predates are padded with NULL)
+                seen = {}
+                for tabs in post["exports"].get("sqlite_classes", {}).values():
+                    seen.update(tabs.get(it["entry"], {}))
+                for key, cls in (want.get("classes") or {}).items():
+                    g = seen.get(key)
+                    if g is not None and (g[:len(cls)] != cls or any(x != "null" for x in g[len(cls):])):
+                        ctx.oracle_fail("cli-vs-api", "sqlite export stores a value in another storage class than the library's row has",
+                                        dict(case, entry=it["entry"], row=key), impl=g, oracle=cls)
+                        break
             if got != exp:
                 missing = [x for x in exp if x not in got][:3]
                 extra = [x for x in got if x not in exp][:3]
